@@ -262,6 +262,12 @@ class ProgGen:
                 dense_out *= max(1, sum(ly[q].D))
         if dense_out > 60000:
             return None
+        work = dense_out
+        for p in ia:
+            if p < len(lx):   # (malformed steps may name axes out of range)
+                work *= max(1, sum(lx[p].D))
+        if work > 400000:   # the (un-optimised) Lean model evaluates every output element as an explicit sum
+            return None
         model = {"f": "tensordot", "a": [i, j], "axes": [ia, ib], "conj": list(cj)}
 
         def oracle(r):
@@ -349,6 +355,15 @@ class ProgGen:
                 wl.append(union_leg(self.cfg, l.s, l, rng.choice(base)))
             else:
                 wl.append(l)
+        def dense_size(ls):
+            sz = 1
+            for l_ in ls:
+                sz *= max(1, sum(l_.D))
+            return sz
+        if dense_size(wl) > 40000:      # keep operands (and the JSON sent to the model) small
+            wl = legs
+            if dense_size(wl) > 40000:
+                return None
         n = x.n
         if mal:
             kind = rng.choice(["charge", "sig", "rank"])
